@@ -126,15 +126,23 @@ def record(scs):
 
 
 def judge(prop, mode, tier, seed, replay, scs=None):
+    from . import asynctrace
     out = core.Outcome(prop, tier, seed)
     out.is_replay = replay is not None
     with core.Scratch(prop.lower()) as sc:
         if replay is not None:
             scs = [replay["case"]["scenario"]]
-        elif scs is None:
-            scs = scenarios(tier, seed)
+        else:
+            if scs is None:
+                scs = scenarios(tier, seed)
+            # the implementation-shaped model: exhaustive on the spec side, and these runs' event traces must be
+            # behaviours of it (they are judged by the property-level spec like every other run)
+            asynctrace.model_runs(out, sc, mode, tier)
+            scs = scs + asynctrace.scenarios(seed, 32 if tier == "quick" else 400, mode)
         recs = record(scs)
-        slim = [{k: v for k, v in r.items() if k not in ("scenario", "writes", "traffic", "status")} for r in recs]
+        if replay is None:
+            asynctrace.conformance(out, recs, sc)
+        slim = [{k: v for k, v in r.items() if k not in ("scenario", "writes", "traffic", "status", "events")} for r in recs]
         paths, counts = core.shard_records(slim, sc, prop.lower(), nshards=core.NCPU if len(slim) > 32 else 1)
         rejects, notes, states, trans, wall = core.judge_shards("AsyncJudge", "AsyncJudge.cfg", paths, sc,
                                                                 expect_counts=counts, extra_env={"MODE": mode})
